@@ -130,12 +130,18 @@ theorem decOk_imp_relaxed (mode : Bool) (desc : Packet) (cut : Option Nat) (fed 
     exact fun h => h.1
   | some n => exact id
 
-/-- `<mode> <packet> <opt cut> <fed bytes> => <res view> <head>`.  Exact decoding is demanded of
-    well-formed payloads only: field layout (`Packet.WF`) and RFC 7798 semantics (`semanticOK`); on the
-    others the code is compared with the model only. -/
+/-- `<mode> <packet> <opt cut> <fed bytes> <before: list bytes> <after: list bytes> => <res view> <head>`.
+    Exact decoding is demanded of well-formed payloads only: field layout (`Packet.WF`) and RFC 7798
+    semantics (`semanticOK`); on the others the code is compared with the model only.
+    `before` / `after` are the payloads the SAME H265Packet parsed before / after the payload under
+    test (both empty: a fresh receiver); the view is read from the packet object the caller kept, after
+    all of them.  H265Packet decodes each payload on its own, so neither the model's answer nor what
+    C14 demands ("decode every well-formed … payload to exactly the encoded field values") depends on
+    them; they are part of the input so that a failing case shows the receiver's history. -/
 def dec : Handler :=
   mkHandler
     (do let m ← Rd.bool; let (p, _) ← rdPacket false; let c ← Rd.opt Rd.nat; let b ← Rd.bytes
+        let _before ← Rd.list Rd.bytes; let _after ← Rd.list Rd.bytes
         pure (m, p, c, b))
     (do let r ← rdResParsed; let h ← Rd.bool; pure ({ res := r, head := h } : C14.DecObs))
     (fun (m, _, _, b) => decObs m b)
@@ -150,9 +156,14 @@ structure RtIn where
   mtu : UInt16
   frames : List (List (Nat × Bytes))
 
+/-- `<addDONL> <skipAgg> <mtu> <frames> <rx>`; `rx` = 1: every payload of the history was parsed by ONE
+    H265Packet (0: a fresh one per payload).  In both cases the views in the observation are read from
+    the decoded packets the caller kept, after the last payload was parsed.  The parser decodes each
+    payload on its own: the model and the predicate do not depend on `rx`. -/
 def rdRtIn : Rd RtIn := do
   let a ← Rd.bool; let s ← Rd.bool; let m ← Rd.u16
   let fr ← Rd.list (Rd.list (do let sc ← Rd.nat; let u ← Rd.bytes; pure (sc, u)))
+  let _rx ← Rd.bool
   pure { cfg := { addDONL := a, skipAgg := s }, mtu := m, frames := fr }
 
 def rdPktObs : Rd C14.PktObs := do
